@@ -112,7 +112,7 @@ def workdir(tag):
     return d
 
 
-def run_vh(sub, tier, stage=None, profile="release", cases=None, extra=(), sd=None, timeout=7200, env_extra=None):
+def run_vh(sub, tier, stage=None, profile="release", cases=None, extra=(), sd=None, timeout=7200, env_extra=None, alloc_abort=None):
     exe = VH if profile == "release" else VH_DEBUG
     wd = workdir("vh-" + sub)
     cmd = [exe, sub, "--seed", str(seed() if sd is None else sd), "--tier", tier, "--work", wd, "--profile", profile]
@@ -132,6 +132,14 @@ def run_vh(sub, tier, stage=None, profile="release", cases=None, extra=(), sd=No
         r = subprocess.run(cmd, stdout=subprocess.PIPE, stderr=subprocess.PIPE, env=env, timeout=timeout)
     finally:
         shutil.rmtree(wd, ignore_errors=True)
+    err = r.stderr.decode("utf-8", "replace")
+    if alloc_abort and r.returncode in (-6, 134) and "memory allocation of" in err:
+        # the code under test asked for more than the harness allocator's hard cap (1 GiB) in one request and Rust
+        # aborted the process: a memory-bound violation of that code, not a failure of the machinery
+        import re as _re
+        m = _re.search(r"memory allocation of (\d+) bytes failed", err)
+        return {"evaluations": 1, "distinct_nontrivial": 0, "distinct_keys_all": [], "counters": {"violations[%s]" % alloc_abort: 1}, "samples": [], "wall_s": 0, "profile": profile,
+                "violations": [{"sig": alloc_abort, "detail": {"requested_bytes": int(m.group(1)) if m else None, "stderr_tail": err[-400:], "command": " ".join(cmd)}}]}
     if r.returncode != 0 or not r.stdout.strip():
         sys.stderr.write(r.stderr.decode("utf-8", "replace")[-4000:])
         print("HARNESS-ERROR: %s exited %s" % (" ".join(cmd), r.returncode))
